@@ -80,6 +80,11 @@ impl TwoWorld {
             // a former member is an outsider again, however it left
             s.alphabet_for.push((OBS, "PART #p"));
             s.alphabet_for.push((1, "KICK #p obs"));
+            if self.kind == Hidden::InvisibleUser {
+                // an observer that sits on a channel of its own shares nothing with the hidden
+                // user, however many channels either of them is on
+                s.alphabet_for.push((OBS, "JOIN #r"));
+            }
             if self.kind == Hidden::SecretChannel {
                 s.alphabet_for.push((OBS, "JOIN #s"));
                 s.alphabet_for.push((0, "KICK #s obs"));
